@@ -154,6 +154,13 @@ func (p *pki) constrain(r *RNG, dv string) {
 		interMod = func(t *x509.Certificate) { t.ExtKeyUsage = []x509.ExtKeyUsage{x509.ExtKeyUsageEmailProtection} }
 	case "ca.expired":
 		interEnd = time.Now().Add(-time.Hour)
+	case "ca.justExpired":
+		// validity ended seconds ago / begins in some seconds: there is no tolerance in "validity period"
+		interEnd = time.Now().Add(-time.Duration(10+r.Intn(40)) * time.Second)
+	case "leaf.justExpired":
+		leafMod = func(t *x509.Certificate) { t.NotAfter = time.Now().Add(-time.Duration(10+r.Intn(40)) * time.Second) }
+	case "leaf.notYetValidSoon":
+		leafMod = func(t *x509.Certificate) { t.NotBefore = time.Now().Add(time.Duration(20+r.Intn(30)) * time.Second) }
 	case "ca.notYetValid":
 		interMod = func(t *x509.Certificate) { t.NotBefore = time.Now().Add(24 * time.Hour) }
 	case "leaf.ekuOther":
@@ -325,7 +332,7 @@ func init() {
 				"signedByNonLeaf", "pool.default", "pool.empty", "pool.nil", "pool.lastWins", "pool.lastWinsBad", "garbage",
 				"default.none", "default.emptyPool", "default.nilPool", "default.otherPool", "default.emptyThenNothing",
 				"ca.intermediateNotCA", "ca.intermediateNoBasicConstraints", "ca.pathLenExceeded", "ca.keyUsageNoCertSign", "ca.ekuConstrained", "ca.expired",
-				"ca.notYetValid", "leaf.ekuOther", "leaf.ekuServerAuth", "ca.ekuAny"}
+				"ca.notYetValid", "leaf.ekuOther", "leaf.ekuServerAuth", "ca.ekuAny", "ca.justExpired", "leaf.justExpired", "leaf.notYetValidSoon"}
 			n := c.N(6, 200)
 			for i := 0; i < n; i++ {
 				for _, dv := range devs {
@@ -337,7 +344,7 @@ func init() {
 						}
 						p.underDefaultRoot(r, depth)
 					}
-					if strings.HasPrefix(dv, "ca.") || strings.HasPrefix(dv, "leaf.eku") {
+					if strings.HasPrefix(dv, "ca.") || strings.HasPrefix(dv, "leaf.eku") || dv == "leaf.justExpired" || dv == "leaf.notYetValidSoon" {
 						depth = 3
 						p.constrain(r, dv)
 					}
